@@ -33,6 +33,9 @@ Prop return Set then Type using where with andb orb negb true false Some None fs
 """.split())
 
 
+BUILTINS = ("any", "all", "len", "str", "map")
+
+
 class Refuse(Exception):
     def __init__(self, path, node, why):
         self.path, self.line = path, getattr(node, "lineno", 0)
@@ -315,10 +318,9 @@ class Tr:
         if isinstance(s, ast.If):
             c = self.cond(s.test, env)
             if not has_return(s.body) and not has_return(s.orelse):
-                names = sorted(assigned(s.body) | assigned(s.orelse))
-                for v in names:
-                    if v not in env.vars:
-                        self.no(s, f"{v!r} may be unbound after this if")
+                a1, a2 = assigned(s.body), assigned(s.orelse)
+                # names bound in one branch only and not before are branch-local (unknown afterwards)
+                names = sorted(v for v in a1 | a2 if v in env.vars or (v in a1 and v in a2))
                 if not names:
                     self.no(s, "if statement without effect")
                 pack = lambda e: "(" + ", ".join(e.name(v) for v in names) + ")" if len(names) != 1 else e.name(names[0])  # noqa: E731
@@ -326,8 +328,9 @@ class Tr:
                 t1 = self.block(s.body, e1, pack)
                 t2 = self.block(s.orelse, e2, pack)
                 for v in names:
-                    if not same(e1.vars[v], e2.vars[v]) or not same(e1.vars[v], env.vars[v]):
+                    if not same(e1.vars[v], e2.vars[v]) or not same(e1.vars[v], env.vars.get(v, e1.vars[v])):
                         self.no(s, f"{v!r} changes type across branches")
+                    env.vars[v] = e1.vars[v]
                 pat = pack(env) if len(names) == 1 else "'" + pack(env)
                 return f"let {pat} := if {c} then ({t1}) else ({t2}) in\n  {self.block(rest, env, final)}"
             e1, e2 = env.fork(), env.fork()
@@ -651,10 +654,17 @@ class Tr:
         if not isinstance(f, (ast.Name, ast.Attribute)):
             self.no(e, "call of a computed function")
         name = f.id if isinstance(f, ast.Name) else f"{env.cls}.{f.attr}"
+        if name in env.vars or (name in BUILTINS and (name in self.funcs or name in self.consts)):
+            self.no(e, f"call of {name!r}, which is a local value or a redefined builtin")
         if name in ("any", "all") and len(args) == 1 and isinstance(args[0], ast.GeneratorExp):
             it, e2, v = self.comp(args[0].generators, env, e)
             fn = "List.existsb" if name == "any" else "List.forallb"
             return f"({fn} (fun {v} => {self.cond(args[0].elt, e2)}) {it})", BOOL
+        if name in ("any", "all") and len(args) == 1:
+            it, t = self.iterable(args[0], env)
+            if t[1] != BOOL:
+                self.no(e, f"{name}() over non-bool elements (truthiness)")
+            return f"({'List.existsb' if name == 'any' else 'List.forallb'} (fun b => b) {it})", BOOL
         if name == "len" and len(args) == 1:
             term, t = self.expr(args[0], env.allow_bare())
             if t == STR:
@@ -686,7 +696,7 @@ class Tr:
             if env.root.opaques.setdefault(name, sig) != sig:
                 self.no(e, f"opaque function {name} used at two different types")
             return f"(py_{name} {' '.join(x for x, _ in items)})", rt
-        if name in self.funcs and name not in ("any", "all", "len", "str", "map"):
+        if name in self.funcs and name not in BUILTINS:
             cname, ps, ret, opq = self.function(name, e)
             if opq:
                 self.no(e, f"call of {name}, which depends on an opaque function")
@@ -797,9 +807,9 @@ HEADER = """(** GENERATED by tools/py2coq.py from {path}
     sha256 {sha} -- do not edit; rewritten on every check run. *)
 From Coq Require Import List String Ascii NArith ZArith Bool.
 From MV Require Import Base.Sx Base.Cmp Gen.PyLib.
-{extra}Import ListNotations.
+Import ListNotations.
 Local Open Scope string_scope.
-
+{extra}
 """
 
 
